@@ -7,7 +7,7 @@ import calcrun
 from drivers.calcgen import Prog, world_tables, CMPS
 from checks import calcmodel
 
-TYPES = ['A', 'B', 'A2', 'ApB', 'AB', 'Bi', 'DpB', 'D', 'E']
+TYPES = ['A', 'B', 'A2', 'ApB', 'AB', 'Bi', 'DpB', 'ApBD', 'D', 'E']
 
 
 def programs(ctx):
